@@ -12,6 +12,9 @@ usage: tools/eval_seeded.py <agent-out-dir> <K> <seed-id> <property> [extra prop
 import json, os, shutil, subprocess, sys, tempfile, time
 
 ROOT = os.path.dirname(os.path.dirname(os.path.abspath(__file__)))
+CHECKS_ONLY = "--checks-only" in sys.argv  # consistency re-run: the patch was confirmed before; only re-run our checks
+if CHECKS_ONLY:
+    sys.argv.remove("--checks-only")
 if sys.argv[1] == "--from-seeded":
     # re-evaluate a kept seeded change from /verif/seeded/<id>/ (patch.diff, demo.py, notes.md; property from meta.json)
     sid = sys.argv[2]
@@ -31,11 +34,17 @@ try:
     r = run(["git", "-C", "/repo", "worktree", "add", "--detach", "-q", wt, "HEAD"]); assert r.returncode == 0, r.stderr
     patch = os.path.join(src_dir, f"patch{K}.diff"); demo = os.path.join(src_dir, f"demo{K}.py")
     env_clean = dict(os.environ, PYTHONPATH=os.path.join(wt, "src"))
-    d0 = run(["/venv/bin/python", demo], env=env_clean, cwd=tmp)
+    old_meta = {}
+    if CHECKS_ONLY:
+        old_meta = json.load(open(os.path.join(ROOT, "seeded", sid, "meta.json")))
+    r = run(["git", "-C", wt, "apply", "--check", patch]); assert r.returncode == 0, r.stderr
+    if not CHECKS_ONLY:
+        d0 = run(["/venv/bin/python", demo], env=env_clean, cwd=tmp)
     r = run(["git", "-C", wt, "apply", patch]); assert r.returncode == 0, r.stderr
-    t = run(["/venv/bin/python", "-m", "pytest", "-q", "-p", "no:cacheprovider", "-n", "8", "tests"], env=env_clean, cwd=wt)
-    tests = t.stdout.strip().splitlines()[-1] if t.stdout.strip() else t.stderr[-200:]
-    d1 = run(["/venv/bin/python", demo], env=env_clean, cwd=tmp)
+    if not CHECKS_ONLY:
+        t = run(["/venv/bin/python", "-m", "pytest", "-q", "-p", "no:cacheprovider", "-n", "8", "tests"], env=env_clean, cwd=wt)
+        tests = t.stdout.strip().splitlines()[-1] if t.stdout.strip() else t.stderr[-200:]
+        d1 = run(["/venv/bin/python", demo], env=env_clean, cwd=tmp)
     checks = {}
     for p in [prop] + extra:
         env = dict(os.environ, TORCHJD_SRC=os.path.join(wt, "src"), VERIF_OUT=tmp, VERIF_SEED="1")
@@ -44,8 +53,10 @@ try:
         labels = sorted({l.split("]")[0][6:] for l in c.stdout.splitlines() if l.startswith("FAIL [")})
         first = next((l for l in c.stdout.splitlines() if l.startswith("FAIL [")), "")[:300]
         checks[p] = {"exit": c.returncode, "wall_s": round(time.time() - t0, 1), "labels": labels[:6], "first_failure": first}
+    confirmed = (old_meta["confirmed"] if CHECKS_ONLY else
+                 {"tests_with_patch": tests, "demo_with_patch_exit": d1.returncode, "demo_without_patch_exit": d0.returncode})
     meta = {"id": sid, "property": prop, "source": "independent sub-agent (saw only the property text and its own worktree)",
-            "confirmed": {"tests_with_patch": tests, "demo_with_patch_exit": d1.returncode, "demo_without_patch_exit": d0.returncode},
+            "confirmed": confirmed,
             "checks_quick_seed1": checks,
             "caught_by": ", ".join(p for p, c in checks.items() if c["exit"] == 1) or "NOT CAUGHT",
             "how": "; ".join(f"{p}: {', '.join(c['labels'][:3])}" for p, c in checks.items() if c["exit"] == 1)}
@@ -58,8 +69,13 @@ try:
         old = json.load(open(mp))
     for k in ("change", "needs"):
         meta[k] = old.get(k, "")
+    for k in ("source", "first_sight", "what_we_ran"):
+        if k in old:
+            meta[k] = old[k]
     json.dump(meta, open(mp, "w"), indent=1)
-    print(sid, "tests:", tests, "| demo patched/clean:", d1.returncode, d0.returncode, "|", {p: (c["exit"], c["labels"][:3]) for p, c in checks.items()})
+    print(sid, "tests:", confirmed["tests_with_patch"], "| demo patched/clean:", confirmed["demo_with_patch_exit"], confirmed["demo_without_patch_exit"], "|", {p: (c["exit"], c["labels"][:3]) for p, c in checks.items()})
 finally:
     run(["git", "-C", "/repo", "worktree", "remove", "--force", wt])
     shutil.rmtree(tmp, ignore_errors=True)
+    if "_stage" in globals():
+        shutil.rmtree(_stage, ignore_errors=True)
